@@ -327,12 +327,13 @@ class Interp:
     def _run(self):
         try:
             self.prob.run_model()
-        except ValueError as e:
+        except (ValueError, RuntimeError) as e:
             # a diverging iteration (arbitrary initial guess / Newton without line search) fills the AIC matrix with NaN
-            if "infs or NaNs" in str(e) or "NaN" in str(e):
+            # (scipy: "array must not contain infs or NaNs") or makes the Newton Jacobian singular (OpenMDAO DirectSolver)
+            if "infs or NaNs" in str(e) or "NaN" in str(e) or "singular" in str(e).lower():
                 from oasv.core import Inconclusive
 
-                raise Inconclusive("diverged to NaN: %s" % str(e)[:80])
+                raise Inconclusive("diverged: %s" % str(e)[:80])
             raise
 
     def _compare(self, out):
